@@ -125,7 +125,9 @@ fn register(k: usize, owner: usize, kind: u8, n: usize) {
     if kind == A_DROP_CC {
         // captures a Cc to the *other* node (never to the owner: that would leak by design)
         let t = (owner + 1) % n;
-        if t != owner {
+        // documented misuse is outside the property: an action must not capture (directly or through other objects) a
+        // reference to the object that contains its cleaner - that is a leak by design
+        if t != owner && !reach_from(t)[owner] {
             if let Some(th) = handle(t) {
                 cc = Some(th.clone());
                 a.captured[k] = t as u8;
